@@ -609,6 +609,80 @@ theorem gen_getBatch_inv (g : Gen) (hg : GenInv g) (oT oX : List Nat)
       fun h => by simp only [d']; exact hg.tLen h, fun h => by simp only [d]; exact hg.xLen h⟩
 
 
+/-- **C17 for the whole generator, over all histories** of `get_batch` and `trigger_rar` calls (any
+    iteration numbers, any schedule, oracles within contract), for the three generator kinds: in
+    every owned store the active points at the end are the initial active points plus the chosen
+    candidates of the steps that took place (time and space separately), and the state stays
+    consistent (probabilities of closed form, offsets `n_start + rar_iter_nb · selected`). -/
+theorem gen_run_active (ops : List GenOp) : ∀ (g : Gen), GenInv g → g.validOps ops = true →
+    GenInv (g.runOps ops) ∧
+    (g.cfg.kind.hasT = true → (g.runOps ops).t.active.Perm (g.t.active ++ g.addedT ops)) ∧
+    (g.cfg.kind.hasX = true → (g.runOps ops).x.active.Perm (g.x.active ++ g.addedX ops)) := by
+  induction ops with
+  | nil => intro g hg _; exact ⟨hg, fun _ => by simp [Gen.runOps, Gen.addedT], fun _ => by simp [Gen.runOps, Gen.addedX]⟩
+  | cons op ops ih =>
+    intro g hg hv
+    cases op with
+    | draw oT oX =>
+      simp only [Gen.validOps, Bool.and_eq_true, Bool.or_eq_true, Bool.not_eq_true'] at hv
+      have hoT : g.cfg.kind.hasT = true → g.t.oracleOk oT = true := by
+        intro h; rcases hv.1.1 with h' | h'
+        · rw [h] at h'; exact absurd h' (by simp)
+        · exact h'
+      have hoX : g.cfg.kind.hasX = true → g.x.oracleOk oX = true := by
+        intro h; rcases hv.1.2 with h' | h'
+        · rw [h] at h'; exact absurd h' (by simp)
+        · exact h'
+      have hinv := gen_getBatch_inv g hg oT oX hoT hoX
+      have hcfg : (g.applyOp (.draw oT oX)).cfg = g.cfg := rfl
+      obtain ⟨r1, r2, r3⟩ := ih (g.applyOp (.draw oT oX)) hinv hv.2
+      simp only [Gen.runOps, Gen.addedT, Gen.addedX]
+      refine ⟨r1, ?_, ?_⟩
+      · intro h
+        refine (r2 (by rw [hcfg]; exact h)).trans (List.Perm.append_right _ ?_)
+        have : (g.applyOp (.draw oT oX)).t = (g.t.draw oT).1 := by
+          simp [Gen.applyOp, Gen.getBatch, h]
+        rw [this]; exact (draw_active_perm g.t oT (hoT h)).1
+      · intro h
+        refine (r3 (by rw [hcfg]; exact h)).trans (List.Perm.append_right _ ?_)
+        have : (g.applyOp (.draw oT oX)).x = (g.x.draw oX).1 := by
+          simp [Gen.applyOp, Gen.getBatch, h]
+        rw [this]; exact (draw_active_perm g.x oX (hoX h)).1
+    | trigger i pT pX =>
+      simp only [Gen.validOps, Bool.and_eq_true, beq_iff_eq] at hv
+      obtain ⟨hinv, hyes, hno⟩ := gen_trigger_refines g hg i pT pX hv.1.1 hv.1.2
+      have hcfg : (g.applyOp (.trigger i pT pX)).cfg = g.cfg := by
+        simp only [Gen.applyOp, Gen.trigger]; split <;> rfl
+      obtain ⟨r1, r2, r3⟩ := ih (g.applyOp (.trigger i pT pX)) hinv hv.2
+      simp only [Gen.runOps, Gen.addedT, Gen.addedX]
+      refine ⟨r1, ?_, ?_⟩
+      · intro h
+        refine (r2 (by rw [hcfg]; exact h)).trans ?_
+        cases hs : (g.trigger i pT pX).2 with
+        | true =>
+          obtain ⟨hf, he⟩ := (hyes hs).1 h
+          have : (g.applyOp (.trigger i pT pX)).t = g.t.add pT := by
+            show (g.trigger i pT pX).1.t = _
+            rw [he]; simp [RS.apply, hf]
+          rw [this, add_active g.t pT hf (by rw [hv.1.1, hg.tCfg.2])]
+          simp
+        | false =>
+          have : (g.applyOp (.trigger i pT pX)).t = g.t := (hno hs).1
+          rw [this]; simp
+      · intro h
+        refine (r3 (by rw [hcfg]; exact h)).trans ?_
+        cases hs : (g.trigger i pT pX).2 with
+        | true =>
+          obtain ⟨hf, he⟩ := (hyes hs).2 h
+          have : (g.applyOp (.trigger i pT pX)).x = g.x.add pX := by
+            show (g.trigger i pT pX).1.x = _
+            rw [he]; simp [RS.apply, hf]
+          rw [this, add_active g.x pX hf (by rw [hv.1.2, hg.xCfg.2])]
+          simp
+        | false =>
+          have : (g.applyOp (.trigger i pT pX)).x = g.x := (hno hs).2
+          rw [this]; simp
+
 /-! ### the model's steps pass the store clauses of `Holds.C17` -/
 
 theorem getD_prefixMask {n a k : Nat} (hk : k < n) : (prefixMask n a).getD k false = decide (k < a) := by
@@ -746,5 +820,20 @@ example : drawCheck { storeB := [10, 11, 12, 13], storeA := [11, 13, 10, 12], ma
     = some "draw-changed-the-active-points" := by decide
 example : sideCheck (sideOf exRS [20, 21, 22] [2, 0] [22, 20]) = none :=
   add_passes_sideCheck exRS [20, 21, 22] [2, 0] (by decide) (by decide)
+
+/-- non-vacuity: an ODE generator (5 slots, 2 active, 1 added per step, batches of 1), every
+    iteration is a schedule point; the fourth trigger finds the store full -/
+def exGenCfg : Cfg :=
+  { kind := .ode, start := 0, every := 1, nt := 5, ntStart := 2, selT := 1, n := 0, nStart := 0, selX := 0 }
+def exGen : Gen := Gen.init exGenCfg [10, 11, 12, 13, 14] [] 1 1
+def exGenOps : List GenOp :=
+  [.draw [11, 10, 12, 13, 14] [], .trigger 0 [20] [], .draw [] [], .draw [] [], .draw [20, 10, 11, 13, 14] [],
+   .trigger 1 [21] [], .trigger 2 [22] [], .trigger 3 [23] [], .draw [] []]
+example : exGen.validOps exGenOps = true := by decide
+example : (exGen.runOps exGenOps).t.store = [20, 10, 11, 21, 22] := by decide
+example : exGen.addedT exGenOps = [20, 21, 22] := by decide
+example : GenInv exGen :=
+  genInv_init ⟨by decide, fun _ => by decide, fun h => absurd h (by decide), fun _ => by decide,
+    fun h => absurd h (by decide)⟩ _ _ 1 1 (fun _ => rfl) (fun h => absurd h (by decide))
 
 end Jinns.Rar
